@@ -2,6 +2,7 @@ import GqlProofs.ParserSound
 import GqlProofs.ParserComplete
 import GqlProofs.ParserProgress
 import GqlProofs.ParserLoc
+import GqlProofs.ParserDescLoc
 import GqlProofs.ParserTop
 import GqlProofs.RecogniseSound
 /-! # C03 (parser half) — the parser accepts exactly the GraphQL grammar and builds the AST it defines
@@ -307,6 +308,46 @@ theorem document_loc {toks : List Token} {eofPos : Nat} {d : Document} (h : Deri
       cases toks with
       | nil => exact absurd rfl this
       | cons t r => exact ⟨t, r, rfl, rfl⟩
+
+/-! ## The description child (`Description.Loc`)
+
+The shared AST keeps a description's value; its location is determined by the node's: the description IS the token the
+described node starts with (a STRING / BLOCK_STRING token with exactly that value), so `Description.Loc`, which
+`parseStringLiteral` sets to that token's extent, is `[node.loc.start, that token's stop)` — computed by
+`GqlModel.descLoc` and compared with the real AST's on every accepted case.  One theorem per describable production
+(top-level definitions incl. the object definition inside `extend`, fields, arguments / input fields, enum values,
+directive definitions). -/
+
+theorem inputValueDef_description_loc {p : Pos} {d : InputValueDef} {p' : Pos} (h : DInputValueDef p d p') :
+    DescriptionIsFirstToken p d.description d.loc := dinputValueDef_desc h
+
+theorem fieldDef_description_loc {p : Pos} {d : FieldDef} {p' : Pos} (h : DFieldDef p d p') :
+    DescriptionIsFirstToken p d.description d.loc := dfieldDef_desc h
+
+theorem enumValueDef_description_loc {p : Pos} {d : EnumValueDef} {p' : Pos} (h : DEnumValueDef p d p') :
+    DescriptionIsFirstToken p d.description d.loc := denumValueDef_desc h
+
+/-- object definitions, at top level and inside `extend` -/
+theorem objectDef_description_loc {p : Pos} {d : ObjectDef} {p' : Pos} (h : DObjectDef p d p') :
+    DescriptionIsFirstToken p d.description d.loc := dobjectDef_desc h
+
+/-- scalar, object, interface, union, enum, input object and directive definitions -/
+theorem definition_description_loc {p : Pos} {d : Definition} {p' : Pos} (h : DDefinition p d p') :
+    DescriptionIsFirstToken p d.ownDescription d.loc := ddefinition_desc h
+
+/-- what the driver computes for a described node is the extent of that token (no earlier token of the list starts at
+the same offset: start offsets of a lexer output increase) -/
+theorem description_loc_is_token_extent {p : Pos} {desc : Option String} {l : Loc} (h : DescriptionIsFirstToken p desc l)
+    (pre : List Token) (hd : ∀ u ∈ pre, u.start ≠ l.start) (s : String) (hs : desc = some s) :
+    ∃ t r, p.ts = t :: r ∧ (t.kind = .string ∨ t.kind = .blockString) ∧ t.value = s ∧
+      descLoc (pre ++ p.ts) desc l = [some ⟨t.start, t.stop⟩] := descLoc_eq h pre hd s hs
+
+/-- `scalar Date "the doc" type T { "field doc" a: Int }` (the tokens of): M's AST, and the two description locations
+`[12,21)` and `[31,42)` -/
+example :
+    (match parseTokens descSample with
+     | .ok p => p.doc.defs.flatMap (·.descLocs descSample)
+     | .error _ => []) = [some ⟨12, 21⟩, some ⟨31, 42⟩] := by decide
 
 /-! ## Non-vacuity -/
 
